@@ -45,6 +45,22 @@ func (fr *frame) doCall(c *ssa.CallCommon, args []SV, cur *State, instr *ssa.Cal
 		return fr.builtin(b, c, args, cur, rtyp)
 	}
 	key, callee := fr.calleeKey(c)
+	if fr.top && vc.con != nil && len(vc.con.UnderRecover) > 0 {
+		mk := key
+		if mk == "" {
+			mk = "func-value" // a call through a function value (handler fields, closures passed in)
+		}
+		for _, re := range vc.con.UnderRecover {
+			if ok, _ := regexp.MatchString(re, mk); ok {
+				armed := fr.armed
+				if armed == "" {
+					armed = tFalse
+				}
+				vc.oblige("safe", fmt.Sprintf("call%d[%s].under-recover", vc.count("underrecover"), shortKey(mk)), fr.g, armed)
+				break
+			}
+		}
+	}
 	if callee == nil && !c.IsInvoke() {
 		// call through a package-level alias variable (var X = pkg.F)
 		if u, ok := c.Value.(*ssa.UnOp); ok {
